@@ -19,6 +19,7 @@ def run(chk, tier, only_rule=None):
     chk.not_decided = NOT_DECIDED
     facts = F.load(['csv'], tier)
     chk.units = ['csv', 'toon']
+    r18_6(chk, facts)
     if only_rule in (None, 'R18.3', 'R18.4'):
         toon_rules(chk, tier)
     if only_rule in ('R18.3', 'R18.4'): return
@@ -101,6 +102,31 @@ def run(chk, tier, only_rule=None):
     if ok: chk.ok('R18.2', site, {'verdict': 'escaped_value: curr_char == quote_char_ -> push'})
     else: chk.fail('R18.2', site, pfn['file'], pfn['l'], 'parser state escaped_value does not restore the quote character', None, pfn['q'])
 
+
+def r18_6(chk, facts):
+    """Type inference applies to unquoted fields only."""
+    chk.rule('R18.6', 'CSV type inference: every end_value() of end_quoted_string_value passes infer_types = false (a quoted field stays a string), '
+                      'every end_value() of end_unquoted_string_value passes the infer_types_ option', floor=8)
+    n = 0
+    for fname, want in (('end_quoted_string_value', 'false'), ('end_unquoted_string_value', 'infer_types_')):
+        fns = [f for f in U.functions(facts, cls='basic_csv_parser', name=fname) if f.get('body') is not None]
+        chk.require(fns, 'basic_csv_parser::%s not found' % fname)
+        for fn in U.one_per_inst(fns)[:1]:
+            chk.analysed(fn)
+            k = 0
+            for call in A.calls_in(fn['body'], no_lambda=True):
+                if A.callee_name(call) != 'end_value': continue
+                callee = facts.callee(fn, call)
+                idx = next((i for i, p_ in enumerate((callee or {}).get('params') or []) if p_['n'] == 'infer_types'), 1)
+                args = call.get('args') or []
+                a = args[idx] if idx < len(args) else None
+                k += 1; n += 1
+                site = U.site(fn, 'end_value#%d infer_types' % k)
+                got = 'false' if (a is not None and A.const(a) == 0) else ('true' if (a is not None and A.const(a) == 1) else (A.ref_name(a) or A.text(a)))
+                if got == want: chk.ok('R18.6', site, {'argument': got})
+                else: chk.fail('R18.6', site, fn['file'], call.get('l'), '%s passes infer_types = %s to end_value(); %s' % (
+                    fname, got, 'a quoted field would be turned into a number/boolean/null and no longer round-trip as a string' if want == 'false' else 'unquoted fields follow the infer_types option'), None, fn['q'])
+    chk.require(n >= 8, 'R18.6: only %d end_value calls found' % n)
 
 # ---------------------------------------------------------------------------------------------------------------- TOON
 def char_loop(fn):
@@ -313,3 +339,31 @@ def toon_rules(chk, tier):
                     site = U.site(fn, 'raw append under is_unquoted_safe')
                     if ('is_unquoted_safe', True) in gs: chk.ok('R18.4', site, None)
                     else: chk.fail('R18.4', site, fn['file'], call.get('l'), 'encode_string copies the string unquoted outside the is_unquoted_safe() test', None, fn['q'])
+
+    # ---- R18.5: the quoting decision sees the delimiter in force
+    chk.rule('R18.5', 'TOON active delimiter: every call of encode_primitive / encode_string / is_unquoted_safe passes a run-time delimiter '
+                      '(never a literal or the default argument), so a field containing the delimiter in force is quoted', floor=10)
+    n5 = 0; seen5 = set()
+    for fn in facts.functions:
+        if not fn['file'].endswith('encode_toon.hpp') or fn.get('body') is None or fn.get('dep') or (fn['file'], fn['l']) in seen5: continue
+        seen5.add((fn['file'], fn['l']))
+        k5 = 0
+        for call in A.calls_in(fn['body'], no_lambda=True):
+            nm = A.callee_name(call)
+            if nm not in ('encode_primitive', 'encode_string', 'is_unquoted_safe'): continue
+            callee = facts.callee(fn, call)
+            if callee is None: continue
+            idx = next((i for i, p_ in enumerate(callee.get('params') or []) if p_['n'] == 'delimiter'), None)
+            if idx is None: continue
+            args = call.get('args') or []
+            a = args[idx] if idx < len(args) else None
+            k5 += 1; n5 += 1
+            site = U.site(fn, '%s call#%d delimiter' % (nm, k5))
+            s5 = A.strip(a, casts=True) if a is not None else None
+            if a is None or (s5 is not None and s5.get('k') == 'CXXDefaultArgExpr'):
+                chk.fail('R18.5', site, fn['file'], call.get('l'), '%s is called without a delimiter (default \',\'): a field containing the delimiter in force is not quoted' % nm, None, fn['q'])
+            elif A.const(a) is not None:
+                chk.fail('R18.5', site, fn['file'], call.get('l'), '%s is called with the literal delimiter %r instead of the delimiter in force' % (nm, chr(A.const(a) & 0xff)), None, fn['q'])
+            else:
+                chk.ok('R18.5', site, {'argument': A.text(a)[:40]} if k5 == 1 else None)
+    chk.require(n5 >= 10, 'R18.5: only %d delimiter-taking calls found in encode_toon.hpp' % n5)
